@@ -6,6 +6,7 @@ package main
 import (
 	"fmt"
 	"math/rand"
+	"strings"
 	"sync"
 	"time"
 
@@ -550,6 +551,61 @@ func scheduleScenarios(c *hx.Ctx) []*scn {
 		s.plans = []connPlan{{holdSend: 2, holdGate: "g", failSend: 3}}
 		out = append(out, s)
 	}
+
+	// R: retransmissions first.  Session kept; a QoS 1 publish stays unacknowledged, the connection is lost, a second
+	// publish is queued while offline; on the reconnect (CONNACK sp=1) the client's read of the stored packets is held
+	// until the dispatcher has had every chance to send the queued command.  On the wire the first PUBLISH of the new
+	// connection must be the dup=1 retransmission, and the queued command must not be saved/sent before the last re-send.
+	rb := mk("r-resend-before-dispatch", func(s *scn) {
+		s.direct("resend_before_dispatch", "")
+		s.start()
+		s.waitCount("online", 1)
+		s.via(func() { s.cmd(pub("r", "m1-unacknowledged", 1)) })
+		s.waitCount("send", 1)
+		s.release("drop")
+		s.waitCount("dialwait", 1)
+		s.via(func() { s.cmd(pub("r", "m2-queued-offline", 1)) })
+		s.release("dial")
+		s.waitCount("online", 2)
+		s.waitFut(0)
+		s.waitFut(1)
+		// judge on the record of connection 2
+		s.mu.Lock()
+		first, lastResend, firstNew := "", -1, -1
+		on2 := false
+		for i, l := range s.lines {
+			if strings.HasPrefix(l, "dial 2 ") {
+				on2 = true
+			}
+			if !on2 {
+				continue
+			}
+			isResend := strings.HasPrefix(l, "resend 2 ")
+			isNew := strings.HasPrefix(l, "send 2 ") || (strings.HasPrefix(l, "save ") && strings.HasSuffix(l, "Publish"))
+			if first == "" && (isResend || strings.HasPrefix(l, "send 2 ")) {
+				first = l
+			}
+			if isResend {
+				lastResend = i
+			}
+			if isNew && firstNew < 0 {
+				firstNew = i
+			}
+		}
+		s.mu.Unlock()
+		switch {
+		case lastResend < 0:
+			s.direct("resend_before_dispatch", "the-unacknowledged-publish-was-not-re-sent-on-the-resumed-connection")
+		case !strings.HasPrefix(first, "resend 2 "):
+			s.direct("resend_before_dispatch", "first-PUBLISH-after-the-CONNACK-is-["+strings.ReplaceAll(first, " ", "_")+"]-not-the-dup-retransmission")
+		case firstNew >= 0 && firstNew < lastResend:
+			s.direct("resend_before_dispatch", "the-queued-command-was-saved/sent-before-the-last-re-send")
+		}
+	})
+	rb.clean = false
+	rb.gateSess = true
+	rb.plans = []connPlan{{noAck: map[int]bool{1: true}, dropGate: "drop"}, {sp: true, dialGate: "dial"}}
+	out = append(out, rb)
 
 	// B4: the connection is lost while the dispatcher is busy (inside a send) and nothing else is queued: when it
 	// comes back it must notice the lost connection by itself and reconnect, without being poked by another command
